@@ -33,6 +33,8 @@ def baseline() -> dict:
         p = os.path.join(HERE, 'baseline.json')
         _BASE = json.load(open(p)) if os.path.exists(p) else {'functions': [], 'constants': {}}
         _BASE['functions'] = set(_BASE['functions'])
+        if 'inlinable' in _BASE:
+            _BASE['inlinable'] = set(_BASE['inlinable'])
     return _BASE
 
 
@@ -382,6 +384,7 @@ class Normalizer:
             if not changed:
                 break
         self._constants()
+        self._local_constants()
         self._drop_folded()
 
     def _drop_folded(self):
@@ -508,6 +511,46 @@ class Normalizer:
         expr_pass(fn)
         return changed
 
+    def _local_constants(self):
+        """a local with a name the baseline function does not have, assigned exactly once, by a top-level statement of the
+        function, from an immutable constant expression (number, timedelta(..), datetime(..)): uses are replaced by the value"""
+        locs = self.base.get('locals')
+        if not locs:
+            return
+        for q, fd in self.funcs.items():
+            fn = fd.node
+            known = locs.get(q)
+            if known is None and q.endswith('.setter'):
+                known = locs.get(q[:-7])
+            if known is None:
+                continue
+            known = set(known) | {a.arg for a in fn.args.args + fn.args.kwonlyargs}
+            stores = {}
+            for n in ast.walk(fn):
+                if isinstance(n, ast.Name) and isinstance(n.ctx, (ast.Store, ast.Del)):
+                    stores[n.id] = stores.get(n.id, 0) + 1
+                elif isinstance(n, (ast.Global, ast.Nonlocal)):
+                    for x in n.names:
+                        stores[x] = 99
+            env = {}
+            for i, st in enumerate(fn.body):
+                if isinstance(st, (ast.Assign, ast.AnnAssign)) and st.value is not None:
+                    tg = st.targets if isinstance(st, ast.Assign) else [st.target]
+                    if len(tg) == 1 and isinstance(tg[0], ast.Name) and tg[0].id not in known and stores.get(tg[0].id) == 1 \
+                            and _immutable_const(st.value):
+                        # no use before the definition (source order inside the function)
+                        first_use = min([n.lineno for n in ast.walk(fn) if isinstance(n, ast.Name) and n.id == tg[0].id and
+                                         isinstance(n.ctx, ast.Load)] or [10 ** 9])
+                        if first_use > st.lineno or first_use == 10 ** 9:
+                            env[tg[0].id] = (st, st.value)
+            if not env:
+                continue
+            drop = {id(st) for st, _ in env.values()}
+            sub = {k: v for k, (_, v) in env.items()}
+            fn.body = [_Subst(sub, keep_loc=True).visit(s) for s in fn.body if id(s) not in drop] or [ast.Pass()]
+            for k in sorted(sub):
+                self.log.append(f"local constant {k} folded in {q}")
+
     def _constants(self):
         for modname, tree in self.trees.items():
             known = set(self.base['constants'].get(modname, []))
@@ -530,6 +573,14 @@ class Normalizer:
                                 s2 = _Subst(use, keep_loc=True).visit(s)
                                 new_body.append(s2)
                             fn.body = new_body
+
+
+def _immutable_const(x) -> bool:
+    if isinstance(x, (ast.List, ast.Set, ast.Dict)):
+        return False
+    if isinstance(x, ast.Tuple):
+        return all(_immutable_const(e) for e in x.elts)
+    return _const_like(x)
 
 
 def _const_like(x) -> bool:
